@@ -62,8 +62,10 @@ def labels(draw, n, kind=None, order=None, kinds="ifs"):
 @st.composite
 def history(draw, labs_per_dim):
     """how the array came about (see core.build): a history must not change any answer"""
-    mode = draw(st.sampled_from(["none", "none", "none", "warm", "slice", "relabel", "transposed", "fortran", "copyof"]))
+    mode = draw(st.sampled_from(["none", "none", "none", "warm", "slice", "relabel", "transposed", "fortran", "copyof", "renamed"]))
     h = {"mode": mode}
+    if mode == "renamed":
+        h["via"] = draw(st.sampled_from(["dims", "axis-names"]))
     if mode == "relabel":
         h["init"] = draw(st.sampled_from(["sorted", "shuffled"]))      # the labels the array had when it was queried, before the in-place relabelling
     if mode == "slice":
